@@ -89,7 +89,30 @@ fn run(args: &[String]) {
     if let Some(e) = sc_err {
         rep.inconclusive.push(format!("harness selfcheck failed: {}", e));
     } else {
-        let ctx = Ctx { seed, thorough: tier == "thorough", threads, only, scale, miri, tls_server: None };
+        // the thorough tier's random groups are sized for roughly two minutes per build profile on 16 cores
+        let mult = std::env::var("VMON_THOROUGH_MULT").ok().and_then(|s| s.parse().ok()).unwrap_or(match prop.as_str() {
+            "C01" => 5.0,
+            "C02" => 40.0,
+            "C03" => 40.0,
+            "C04" => 10.0,
+            "C05" => 40.0,
+            "C06" => 15.0,
+            "C07" => 12.0,
+            "C08" => 40.0,
+            "C09" => 8.0,
+            "C10" => 25.0,
+            "C11" => 60.0,
+            "C12" => 5.0,
+            "C14" => 100.0,
+            "C15" => 25.0,
+            "C16" => 15.0,
+            "C17" => 20.0,
+            "C18" => 25.0,
+            "C19" => 40.0,
+            "C20" => 30.0,
+            _ => 1.0,
+        });
+        let ctx = Ctx { seed, thorough: tier == "thorough", threads, only, scale, miri, tls_server: None, thorough_mult: mult };
         match props::run(&prop, &ctx) {
             Some(r) => rep = r,
             None => rep.inconclusive.push(format!("unknown property {}", prop)),
